@@ -35,6 +35,9 @@ SrcFam(as) == { LeafA("a"),
                 [k |-> "ovdu", e |-> Acc("a")],
                 \* an allotment whose first clause is unbounded: the clauses after it are still asked for their share
                 [k |-> "allot", it |-> <<[p |-> [k |-> "portion", n |-> 1, d |-> 2], s |-> LeafA(WORLD)], [p |-> [k |-> "remaining"], s |-> LeafA("a")]>>],
+                \* portions that add up to exactly one next to `remaining` (which then stands for nothing)
+                [k |-> "allot", it |-> <<[p |-> [k |-> "portion", n |-> 1, d |-> 2], s |-> LeafA("a")], [p |-> [k |-> "portion", n |-> 1, d |-> 2], s |-> LeafA("b")],
+                                         [p |-> [k |-> "remaining"], s |-> LeafA("b")]>>],
                 \* a bounded overdraft that covers any amount of the family: the balance still decides (it may be negative)
                 [k |-> "seq", s |-> <<LeafA("b"), [k |-> "ovd", e |-> Acc("a"), b |-> Mon(as, 60)]>>],
                 [k |-> "ovd", e |-> Acc("a"), b |-> Mon(as, 15)] }
@@ -44,9 +47,15 @@ Amounts == IF Big THEN {5, 45, 60} ELSE {5, 60}
 \* (the cap of a source is written in the statement's own asset)
 Sends == {[k |-> "send", all |-> FALSE, sent |-> Mon(as, n), src |-> s, dst |-> LeafA("x")] : as \in {S}, n \in Amounts, s \in SrcFam(S)}
     \cup {[k |-> "send", all |-> FALSE, sent |-> Mon(as, n), src |-> s, dst |-> LeafA("x")] : as \in {O}, n \in {5}, s \in SrcFam(O)}
+\* send-all: plain accounts, and an allotment below a cap (legal there)
+SendAlls == {[k |-> "send", all |-> TRUE, sent |-> Ast(S), src |-> s, dst |-> LeafA("x")] :
+               s \in { LeafA("a"), [k |-> "seq", s |-> <<LeafA("a"), LeafA("b")>>],
+                       [k |-> "seq", s |-> <<LeafA("b"), [k |-> "cap", c |-> Mon(S, 10), s |-> [k |-> "allot", it |-> <<[p |-> [k |-> "portion", n |-> 1, d |-> 2], s |-> LeafA("a")],
+                                                                                                              [p |-> [k |-> "remaining"], s |-> LeafA("b")]>>]]>>],
+                       [k |-> "ovd", e |-> Acc("a"), b |-> Mon(S, 15)] }}
 Saves == {[k |-> "save", all |-> FALSE, sent |-> Mon(as, 1), e |-> Acc("a")] : as \in {S, O}}
     \cup {[k |-> "save", all |-> TRUE, sent |-> Ast(as), e |-> Acc("a")] : as \in {S, O}}
-Stmts == Sends \cup Saves
+Stmts == Sends \cup Saves \cup SendAlls
 DeclFam == { <<>>,
              << [type |-> "monetary", name |-> "m", origin |-> Call("balance", <<Acc("a"), Ast(S)>>), val |-> [t |-> "none"]] >> }
            \cup (IF Big THEN { << [type |-> "monetary", name |-> "m", origin |-> Call("balance", <<Acc("a"), Ast(O)>>), val |-> [t |-> "none"]] >> } ELSE {})
@@ -59,7 +68,7 @@ Contents == { [a |-> [USD |-> 100], b |-> [USD |-> 100]],
 Sends60 == {x \in Sends : x.sent.asset.v = S /\ x.sent.amt.v = 60}
 SendsS  == {x \in Sends : x.sent.asset.v = S /\ x.sent.amt.v # 5}
 Seqs == IF Big THEN {<<s>> : s \in Stmts} \cup {<<s, t>> : s \in Stmts, t \in Stmts} \cup {<<s, t, u>> : s \in Sends60, t \in Stmts, u \in SendsS}
-        ELSE {<<s, t>> : s \in Stmts, t \in Sends} \cup {<<s, v, t>> : s \in Sends, v \in Saves, t \in Sends}
+        ELSE {<<s, t>> : s \in Stmts, t \in Sends \cup SendAlls} \cup {<<s, v, t>> : s \in Sends, v \in Saves, t \in Sends}
 
 VARIABLES phase, prog
 vars == <<phase, prog>>
